@@ -292,7 +292,7 @@ def _directed():
                                {'op': 'newInst', 'c': 2, 'kw': []}, {'op': 'instBlock', 'i': 1}, {'op': 'instBlock', 'i': 5}], 'all'))
     # Parameter-valued class assignment: clears no cache (known finding), harmless before any read
     out.append(('chain3', D3, [{'op': 'clsSetParam', 'c': 0, 'n': 'z', 'd': 3, 'hi': None}], 'end'))
-    out.append(('chain3', D3, [R(1), {'op': 'clsSetParam', 'c': 0, 'n': 'z', 'd': 3, 'hi': None}], 'end'))
+    out.append(('chain3', D3, [R(0), R(1), {'op': 'clsSetParam', 'c': 0, 'n': 'z', 'd': 3, 'hi': None}], 'end'))
     out.append(('chain3', D3, [R(2), {'op': 'clsSetParam', 'c': 1, 'n': 'x', 'd': 2, 'hi': None}], 'end'))
     out.append(('chain3', D3, [{'op': 'clsSetParam', 'c': 1, 'n': 'x', 'd': 9, 'hi': None}], 'end'))
     # per-instance copy, then the class Parameter is replaced underneath it
